@@ -33,13 +33,16 @@ RULE = ("periodic structures from findlib.planted_structure: 0-3 planted rigid c
         ".02,.05,.1,.2,.3} and the edge 0; copies with ONE bond 2.5-8 atol too long; patterns with two same-element atoms between atol and 2 atol apart (H-H 0.75 at "
         "atol .4-.6, F-F 0.375 at .2/.3) with sites holding ONE atom at the pair's midpoint; keywords explicit or left at their "
         "defaults, return_positions_and_quats True/False, verbose, numpy-integer hints; sequences of 2-3 calls on shared "
-        "Atoms objects (two tolerances / same-diagonal ortho+triclinic cells / two patterns / several structures) each "
-        "compared with a fresh evaluation. "
+        "Atoms objects (two tolerances / same-diagonal ortho+triclinic cells / two patterns / several structures / IN-PLACE "
+        "edits of atom_types, atom_type_elements, positions between searches) each compared with a fresh evaluation; the Atoms "
+        "objects are obtained through Atoms(elements=), Atoms(atom_types=, atom_type_elements=), ase.Atoms -> from_ase_atoms "
+        "(oddly oriented triclinic cells), copy(), a[idx], integer coordinate arrays - ground truth is always the generator's own "
+        "lists; ghost copies that exist only under a re-oriented / transposed reading of the cell. "
         "Thorough adds the complete grid origin-fraction^3 x 4 poses x 11 patterns x 3 cell kinds. "
         "Non-trivial = the search reported at least one match of a pattern with >= 2 atoms AND (a planted copy straddles "
         "a cell face OR the structure contains a decoy with the pattern's geometry).")
 
-GEOM_DECOYS = ("mirror", "nearmiss", "wrongelem", "permuted", "stretch", "merged")
+GEOM_DECOYS = ("mirror", "nearmiss", "wrongelem", "permuted", "stretch", "merged", "ghost")
 
 
 # ------------------------------------------------------------------ the property, on the real result
@@ -190,12 +193,13 @@ def call_find(s, p, inp):
 
 
 def snapshot(a):
-    return (np.array(a.positions, dtype=float).copy(), list(a.elements), None if a.cell is None else np.array(a.cell, dtype=float).copy())
+    # elements straight from the stored types: an accessor may itself be what is wrong
+    return (np.array(a.positions, dtype=float).copy(), g.true_elements(a), None if a.cell is None else np.array(a.cell, dtype=float).copy())
 
 
 def unchanged(a, snap):
     pos, els, cell = snap
-    return (np.array_equal(np.array(a.positions, dtype=float), pos) and list(a.elements) == els
+    return (np.array_equal(np.array(a.positions, dtype=float), pos) and g.true_elements(a) == els
             and (cell is None or np.array_equal(np.array(a.cell, dtype=float), cell)))
 
 
@@ -221,8 +225,8 @@ def _logged(inp):
 def run_real(inp, log=True):
     if log:
         HISTORY.append(_logged(inp))
-    s = fl.mk_structure(inp["elems"], inp["pos"], inp["cell"])
-    p = g.mk_pattern(inp["pattern"])
+    s = g.build_structure(inp)        # through the public constructor / conversion the input names (`route`, `proute`)
+    p = g.build_pattern(inp)
     ss, ps = snapshot(s), snapshot(p)
     res = call_find(s, p, inp)
     res["inputs_unchanged"] = unchanged(s, ss) and unchanged(p, ps)
@@ -257,12 +261,17 @@ def run_sequence(calls, log=True):
     objs, snaps, out, notes = {}, {}, [], []
     for c in calls:
         ks, kp = ("s", c.get("sobj", id(c))), ("p", c.get("pobj", id(c)))
-        if ks not in objs:
-            objs[ks] = fl.mk_structure(c["elems"], c["pos"], c["cell"])
-            snaps[ks] = snapshot(objs[ks])
-        if kp not in objs:
-            objs[kp] = g.mk_pattern(c["pattern"])
-            snaps[kp] = snapshot(objs[kp])
+        fresh_s, fresh_p = ks not in objs, kp not in objs
+        if fresh_s:
+            objs[ks] = g.build_structure(c)
+        if fresh_p:
+            objs[kp] = g.build_pattern(c)
+        # in-place edits made by the CALLER between two searches (objects built for this very call already have them)
+        for e in c.get("edits", []):
+            k = ks if e["target"] == "s" else kp
+            if not (fresh_s if e["target"] == "s" else fresh_p):
+                g.apply_edit(objs[k], e)
+        snaps[ks], snaps[kp] = snapshot(objs[ks]), snapshot(objs[kp])
         if log:
             HISTORY.append(_logged(c))
         res = call_find(objs[ks], objs[kp], c)
@@ -298,7 +307,10 @@ def faithful_input(inp, bad, seq=None):
         if hit and kind == "history" and len(calls) > 3:
             # shrink: does ONE earlier call followed by the failing one suffice?
             tail = seq or [inp]
-            for prev in reversed(calls[:len(calls) - len(tail)][-400:]):
+            before = calls[:len(calls) - len(tail)]
+            half = len(before) // 2
+            # the shorter tail (half as long) did not reproduce it: the call that matters is in the older half
+            for prev in (list(reversed(before[:half + 1])) + list(reversed(before[half + 1:])))[:3000]:
                 fresh_modules()
                 r2, _ = run_sequence([prev] + tail, log=False)
                 h2 = [i for i, (_, bb) in enumerate(r2) if bb]
@@ -348,7 +360,8 @@ def tags_of(inp):
     i = inp["info"]
     t = ["cell:" + i["cell"], "pattern:" + i["pattern"], "atol:%g" % inp["atol"], "cross:%d" % g.crossings(inp),
          "pose:" + str(i.get("pose")), "place:" + str(i.get("boundary")),
-         "hints:" + "".join("x" if h is not None else "-" for h in inp["hints"])]
+         "hints:" + "".join("x" if h is not None else "-" for h in inp["hints"]),
+         "via:" + inp.get("route", "elements"), "pattern via:" + inp.get("proute", "elements")]
     return t + sorted(set("decoy:" + k for k, _ in inp["decoys"]))
 
 
@@ -473,8 +486,10 @@ def grid_inp(seed, task):
     if pname in g.CLOSE_PAIR and rng.random() < 0.7:
         atol = rng.choice(g.CLOSE_PAIR[pname])      # the close same-element pair is between atol and 2·atol apart
     case = g.planted_at(rng, pname, ck, pose, fr, atol)
+    if ck != "ortho" and rng.random() < 0.3:
+        g.add_ghost(rng, case, atol)
     return inp_of(case, atol, g.valid_hints(rng, case["pattern"]) if rng.random() < 0.3 else (None, None, None),
-                  rng.randrange(1 << 30))
+                  rng.randrange(1 << 30), **g.pick_routes(rng, case))
 
 
 def _grid_worker(args):
@@ -521,8 +536,20 @@ def run(ctx, oracle_only=False, scale=1):
     n_rand = ctx.n(260, 3000) * scale
     n_tie = 0 if oracle_only else ctx.n(300, 1500)
     for _ in range(n_rand):
-        case, atol, hints = g.zero_tol_case(rng) if rng.random() < 0.03 else g.random_case(rng)
-        inp = inp_of(case, atol, hints, rng.randrange(1 << 30), **g.call_style(rng, atol, hints))
+        integer = False
+        u = rng.random()
+        if u < 0.03:
+            case, atol, hints = g.zero_tol_case(rng)
+        elif u < 0.06:
+            case, atol, hints = g.int_case(rng)
+            integer = True
+        else:
+            case, atol, hints = g.random_case(rng)
+        style = g.call_style(rng, atol, hints)
+        style.update(g.pick_routes(rng, case, route=case.pop("want_route", None)))
+        if integer:
+            style["integer"] = True
+        inp = inp_of(case, atol, hints, rng.randrange(1 << 30), **style)
         res, bad = one(inp)
         if bad:
             rin, rbad = faithful_input(inp, bad)
@@ -564,7 +591,8 @@ def run(ctx, oracle_only=False, scale=1):
     # sequences of calls in one process
     for _ in range(ctx.n(60, 400) * scale):
         kind, calls = g.random_sequence(rng)
-        check_sequence(ctx, kind, calls, oracle_only)
+        if calls:
+            check_sequence(ctx, kind, calls, oracle_only)
     tasks = grid_tasks()
     if ctx.tier == "quick":
         tasks = rng.sample(tasks, 150 * scale)
